@@ -16,7 +16,6 @@ package main
 import (
 	"context"
 	"fmt"
-	"io"
 	"sort"
 	"strings"
 	"sync"
@@ -192,26 +191,7 @@ func runResume(c *Case) (obs []CallObs, fatal string) {
 		go func() {
 			defer close(done)
 			pan = lib.Recover(func() {
-				if cl.Stream {
-					sr, e := r.Stream(cctx, b.input(), opts[i]...)
-					if e != nil {
-						cerr = e
-						return
-					}
-					defer sr.Close()
-					for {
-						_, e := sr.Recv()
-						if e == io.EOF {
-							return
-						}
-						if e != nil {
-							cerr = e
-							return
-						}
-					}
-				} else {
-					_, cerr = r.Invoke(cctx, b.input(), opts[i]...)
-				}
+				cerr = callRunnable(cctx, r, b.input(), cl, opts[i])
 			})
 		}()
 		select {
